@@ -5,6 +5,7 @@ package redis
 //vf:job C10 quick VF_C10_RoundTrip shape=0..17 nl=0..1
 //vf:job C10 thorough VF_C10_RoundTrip shape=0..17 nl=2
 //vf:job C10 quick VF_C10_IntRoundTrip r=0..5
+//vf:job C10 quick VF_C10_IntText tmpl=0..7
 //vf:job C10 quick VF_C10_Retained shape=0..8
 //vf:job C10 quick VF_C10_Inline words=1..3 nl=0..1
 //vf:job C10 quick VF_C10_BadCR shape=0..7
@@ -21,6 +22,7 @@ import (
 	"bufio"
 	"bytes"
 	"io"
+	"strconv"
 )
 
 func vfText(tag string, n int) []byte {
@@ -497,4 +499,40 @@ func VF_C10_ParseArgs() {
 	}
 	vfAssert(ok, "arguments differ")
 	vfAssertTwin(len(a) != n, "twin")
+}
+
+// integer replies around the ends of the 64-bit range: the text is a template with one or two
+// symbolic characters; the decoder must return a value exactly when the text is a decimal int64
+// (strconv.ParseInt, trusted, is the reference) and an error otherwise, never a wrapped value
+func VF_C10_IntText() {
+	tm := [][2]string{
+		{"922337203685477580", ""},  // + 1 digit: ..0-7 fit, 8 and 9 do not
+		{"-922337203685477580", ""}, // + 1 digit: ..0-8 fit, 9 does not
+		{"92233720368547758", "7"},  // one symbolic character in the middle
+		{"", "223372036854775807"},  // leading character symbolic: 9 fits, sign characters, other digits
+		{"+922337203685477580", ""}, // explicit plus sign
+		{"1844674407370955161", ""}, // 2^64 neighbourhood: wraps to small values in 64-bit arithmetic
+		{"-", "223372036854775808"}, // second character symbolic
+		{"99999999999999999", ""},   // + 2 symbolic characters
+	}[vfParam("tmpl", 0)]
+	n := 1
+	if vfParam("tmpl", 0) == 7 {
+		n = 2
+	}
+	text := append(append([]byte(tm[0]), vfBytes("c", n)...), tm[1]...)
+	for _, c := range text[len(tm[0]) : len(tm[0])+n] {
+		vfAssume(c != '\r')
+		vfAssume(c != '\n')
+	}
+	enc := append(append([]byte(":"), text...), '\r', '\n')
+	want, werr := strconv.ParseInt(string(text), 10, 64)
+	d := NewDecoder(bufio.NewReader(bytes.NewReader(enc)))
+	v, err := d.decodeResp(0)
+	vfAssert((err == nil) == (werr == nil), "an integer reply outside the 64-bit range (or not a number) must be an error, one inside must decode")
+	if err == nil && werr == nil {
+		iv, ok := v.(*Int)
+		vfAssert(ok && iv.Value == want, "integer reply decoded to another value")
+		vfAssert(d.offset == int64(len(enc)), "decoder position differs from the bytes consumed")
+	}
+	vfAssertTwin(len(enc) == 0, "twin")
 }
